@@ -698,7 +698,7 @@ def t2b_claims_recursion_complete(prog):
     return r
 
 
-@rule('L2', props=['C14'], floor=3, configs=('all', 'default'))
+@rule('L2', props=['C14'], floor={'all': 3, 'default': 2}, configs=('all', 'default'))
 def l2_world_results_borrow_world(prog):
     """Every public method of World that takes `&self`/`&mut self` and whose signature declares lifetime
     parameters of its own (query, par_query, view_resources, ...) ties them to the receiver: the receiver is
